@@ -21,6 +21,8 @@ RULE = (
     "Worker 0 additionally enumerates every range(start, stop, step) with start, stop in [-6,7], step in "
     "+-{1,2,3,5} against 25 probe values (exhaustive).  Non-trivial = depth >= 2 or a container; distinct = distinct "
     "operator-shape strings."
+    "  Range literals are built through the factory and through the public dataclass constructor (both routes in "
+    "the exhaustive grid). "
 )
 ASSUMPTIONS = [
     "SQLite 3 integer semantics stand in for 'a database' (64-bit integers; % is a remainder)",
